@@ -106,10 +106,11 @@ def gen_foreach(rng, p):
     return {'l': ['{word}', '{n}', 'lit']}       # items are formatted with the list
 
 
-def gen_while(rng):
+def gen_while(rng, safe=True):
+    """safe = the body cannot touch whileCounter, so a counter-based stop without max terminates."""
     w = {}
     r = rng.random()
-    if r < 0.75:
+    if r < 0.75 or not safe:
         w['max'] = rng.choice([1, 2, 3, 3, 4, 0, -1, '{n}', '2', py(['add', name('n'), ['int', 1]])])
     if 'max' not in w or rng.random() < 0.55:
         w['stop'] = rng.choice([py(['cmp', 'ge', name('cnt'), ['int', rng.choice([1, 2, 3])]]),
@@ -191,7 +192,7 @@ def gen_step(rng, p, pipe, group, idx, targets, handlers, later_pipes, depth_tag
     st = {'body': body}
     loops = []
     if rng.random() < p['p_while']:
-        st['while'] = gen_while(rng)
+        st['while'] = gen_while(rng, safe=body in ('probe', 'fail', 'incr'))
         loops.append('while')
     if rng.random() < p['p_foreach']:
         st['foreach'] = gen_foreach(rng, p)
